@@ -11,7 +11,7 @@ from harness import gen, oracles, par
 from harness.checks.C17 import sig_programs
 from harness.detcheck import key_of
 
-CAUSES = ['success', 'task_exc', 'init_exc', 'exit_exc', 'timeout', 'sigkill', 'sigint', 'terminate_during_imap', 'abandoned_imap', 'mixed_map', 'apply']
+CAUSES = ['success', 'task_exc', 'init_exc', 'exit_exc', 'timeout', 'exit_timeout', 'sigkill', 'sigint', 'terminate_during_imap', 'abandoned_imap', 'mixed_map', 'apply']
 
 
 def exit_scenarios(rng, n):
@@ -40,6 +40,12 @@ def exit_scenarios(rng, n):
             pool['start_method'] = 'fork'
             op['task_timeout'] = 0.2
             op['dur'] = {'kind': 'map', 'map': {str(rng.randrange(nn)): 50.0}, 'default': 0.01}
+        elif cause == 'exit_timeout':
+            pool['start_method'] = 'fork'
+            pool.pop('keep_alive', None)
+            op['exit'] = True
+            op['worker_exit_timeout'] = 0.2
+            op['exit_dur'] = 8.0
         elif cause == 'sigkill':
             pool['start_method'] = 'fork'
             sc['inject'] = [{'kind': 'sigkill', 'victim': 'Worker-%d' % rng.randrange(pool['n_jobs']), 'instance': 0, 'point': rng.randint(8, 60)}]
